@@ -5,6 +5,7 @@ package main
 import (
 	"context"
 	"fmt"
+	"go/token"
 	"go/types"
 	"os"
 	"path/filepath"
@@ -176,7 +177,10 @@ func (vc *FuncVC) specVars(st *State) map[string]SV {
 		fr = fr.caller
 	}
 	for k, v := range fr.locals {
-		vars[k] = SV{v, fr.localT[k]}
+		if ev, ok := vc.entryVars[k]; ok && ev.Deref != nil {
+			continue // captured by reference: the spec name denotes the variable's current value
+		}
+		vars[k] = SV{V: v, T: fr.localT[k]}
 	}
 	return vars
 }
@@ -217,6 +221,20 @@ func (vc *FuncVC) ghostAssign(st *State, env *SpecEnv, gs []*GhostAssign) {
 			continue
 		}
 		newT := rv.V.T
+		if l.Whole {
+			if ga.Cond != nil {
+				c, err := env.Bool(ga.Cond)
+				if err != nil {
+					vc.errs = append(vc.errs, fmt.Sprintf("%s ghost %s: %v", vc.name, ga.Src, err))
+					continue
+				}
+				newT = ite(c, newT, st.cur(l.Heap, smtSortOf(l.Typ)))
+			}
+			st.cur(l.Heap, smtSortOf(l.Typ))
+			st.setHeap(l.Heap, smtSortOf(l.Typ), newT)
+			env.heaps = st.heaps
+			continue
+		}
 		if ga.Cond != nil {
 			c, err := env.Bool(ga.Cond)
 			if err != nil {
@@ -344,15 +362,21 @@ func (vc *FuncVC) initState() *State {
 			st.belowBrk(v.T, fmt.Sprint(g.P.sizeof(u.Elem())))
 		}
 		fr.regs[p] = v
-		vc.entryVars[p.Name()] = SV{v, p.Type()}
+		vc.entryVars[p.Name()] = SV{V: v, T: p.Type()}
 	}
 	for _, fv := range vc.fn.FreeVars {
 		v := st.freshVal(fv.Type(), "fv."+fv.Name())
 		if pt, ok := fv.Type().Underlying().(*types.Pointer); ok {
+			st.belowBrk(v.T, fmt.Sprint(g.P.sizeof(pt.Elem())))
+			st.assume(fmt.Sprintf("(> %s 0)", v.T))
 			v = st.ptrTo(pt.Elem(), v.T)
 		}
 		fr.free = append(fr.free, v)
-		vc.entryVars[fv.Name()] = SV{v, fv.Type()}
+		sv := SV{V: v, T: fv.Type()}
+		if pt, ok := fv.Type().Underlying().(*types.Pointer); ok {
+			sv.Deref = pt.Elem() // captured by reference: specs name the variable, not its address
+		}
+		vc.entryVars[fv.Name()] = sv
 	}
 	return st
 }
@@ -454,6 +478,9 @@ func (vc *FuncVC) explore(st *State, b *ssa.BasicBlock, idx int, prev *ssa.Basic
 				st.execInstr(in)
 				continue
 			}
+			if top && len(vc.con.AtCall) > 0 {
+				vc.atCall(st, x)
+			}
 			res := vc.doCall(st, x)
 			for k, o := range res {
 				if o.st.dead {
@@ -535,6 +562,92 @@ func (vc *FuncVC) explore(st *State, b *ssa.BasicBlock, idx int, prev *ssa.Basic
 			return
 		default:
 			st.execInstr(in)
+			if top {
+				vc.chanHooks(st, in)
+			}
+		}
+	}
+}
+
+// calleeKeys returns the names under which a call site can be addressed by at-call clauses.
+func (vc *FuncVC) calleeKeys(st *State, c ssa.CallInstruction) []string {
+	cc := c.Common()
+	var keys []string
+	if cc.IsInvoke() {
+		keys = append(keys, "("+typeKey(cc.Value.Type())+")."+cc.Method.Name())
+		if fn := vc.resolveInvoke(cc); fn != nil {
+			keys = append(keys, ShortName(fn))
+		}
+		return keys
+	}
+	switch v := cc.Value.(type) {
+	case *ssa.Function:
+		keys = append(keys, ShortName(v))
+	case *ssa.Builtin:
+	default:
+		fv := st.val(cc.Value)
+		if fv.Clo != nil {
+			keys = append(keys, ShortName(fv.Clo.Fn.(*ssa.Function)))
+		}
+		if fv.Src != "" {
+			keys = append(keys, "field:"+fv.Src)
+		}
+		keys = append(keys, "type:"+typeKey(cc.Value.Type()))
+	}
+	return keys
+}
+
+func (vc *FuncVC) atCall(st *State, c ssa.CallInstruction) {
+	keys := vc.calleeKeys(st, c)
+	for _, ac := range vc.con.AtCall {
+		for _, k := range keys {
+			if k == ac.Callee || strings.HasSuffix(k, ac.Callee) {
+				env := st.specEnv(vc.pkg, vc.specVars(st))
+				vc.ghostAssign(st, env, []*GhostAssign{ac.GA})
+				break
+			}
+		}
+	}
+}
+
+// chanHooks applies "recv v assume E" after a channel receive and "send v assert E" at a send.
+func (vc *FuncVC) chanHooks(st *State, in ssa.Instruction) {
+	switch x := in.(type) {
+	case *ssa.UnOp:
+		if x.Op != token.ARROW {
+			return
+		}
+		v := st.fr.regs[x]
+		if x.CommaOk {
+			v = v.Fs[0]
+		}
+		elemT := x.X.Type().Underlying().(*types.Chan).Elem()
+		for _, rc := range vc.con.Recv {
+			vars := vc.specVars(st)
+			vars[rc.Var] = SV{V: v, T: elemT}
+			env := st.specEnv(vc.pkg, vars)
+			t, err := env.Bool(rc.C.E)
+			if err != nil {
+				vc.errs = append(vc.errs, fmt.Sprintf("%s recv: %v", vc.name, err))
+				continue
+			}
+			if x.CommaOk {
+				t = fmt.Sprintf("(=> %s %s)", st.fr.regs[x].Fs[1].T, t)
+			}
+			st.assume(t)
+			st.g.note("channel contract: received values satisfy the declared channel invariant (" + rc.C.Src + "), which every send in the module must establish")
+		}
+	case *ssa.Send:
+		for _, sc := range vc.con.Send {
+			vars := vc.specVars(st)
+			vars[sc.Var] = SV{V: st.val(x.X), T: x.X.Type()}
+			env := st.specEnv(vc.pkg, vars)
+			t, err := env.Bool(sc.C.E)
+			if err != nil {
+				vc.errs = append(vc.errs, fmt.Sprintf("%s send: %v", vc.name, err))
+				continue
+			}
+			st.oblige("send["+sc.C.Label+"]", t, sc.C.Src)
 		}
 	}
 }
@@ -683,7 +796,9 @@ func (vc *FuncVC) frameGoals(st *State, hs []string) map[string]string {
 		}
 		// locations are evaluated in the pre-state
 		if l := oldEnv.tryLoc(m); l != nil {
-			if _, isSlice := l.Typ.Underlying().(*types.Slice); isSlice {
+			if l.Whole {
+				whole[l.Heap] = true
+			} else if _, isSlice := l.Typ.Underlying().(*types.Slice); isSlice {
 				for _, suf := range []string{"#ptr", "#len", "#cap"} {
 					locs[l.Heap+suf] = append(locs[l.Heap+suf], l)
 				}
